@@ -88,7 +88,8 @@ def _retry(
         try:
             return func(*args, **kwargs)
         except exceptions:
-            logger.warning(f'Exception thrown when attempting to run {getattr(func, "__name__", repr(func))}, '
+            logger.warning(f'Exception thrown when attempting to run '
+                           f'{func.__name__ if hasattr(func, "__name__") else repr(func)}, '
                            f'attempt {attempt} of {attempts}')
             attempt += 1
             time.sleep(sleep_time.total_seconds())
